@@ -734,4 +734,103 @@ theorem lookup_of_member {tab : UnitTable} {units : List (Kind × String)} {data
   obtain ⟨x', hx', hl⟩ := loadMembers_lookup thermoSchema p thermoSchema_nodup hp m hm
   rw [hx] at hx'; cases hx'; exact hl
 
+/-! ### wrong dimension in the table -/
+
+theorem mapM_ok_forall₂ {α β ε : Type} (f : α → Except ε β) :
+    ∀ (l : List α) (ls : List β), l.mapM f = .ok ls → List.Forall₂ (fun a b => f a = .ok b) l ls := by
+  intro l
+  induction l with
+  | nil => intro ls h; simp at h; cases h; exact List.Forall₂.nil
+  | cons a l ih =>
+    intro ls h
+    rw [List.mapM_cons] at h
+    obtain ⟨b, hb, h⟩ := bind_eq_ok h
+    obtain ⟨bs, hbs, h⟩ := bind_eq_ok h
+    cases h
+    exact List.Forall₂.cons hb (ih bs hbs)
+
+theorem forall₂_mem_right {α β : Type} {R : α → β → Prop} {l : List α} {ls : List β} (h : List.Forall₂ R l ls)
+    {b : β} (hb : b ∈ ls) : ∃ a ∈ l, R a b := by
+  induction h with
+  | nil => simp at hb
+  | cons h _ ih =>
+    rcases List.mem_cons.mp hb with rfl | hb'
+    · exact ⟨_, by simp, h⟩
+    · obtain ⟨a, ha, hr⟩ := ih hb'
+      exact ⟨a, by simp [ha], hr⟩
+
+theorem dinsert_all {V : Type} (P : V → Prop) (k : Rat) (v : V) (l : List (Rat × V)) (hv : P v) (hl : ∀ kv ∈ l, P kv.2) :
+    ∀ kv ∈ dinsert k v l, P kv.2 := by
+  induction l with
+  | nil => intro kv h; simp [dinsert] at h; subst h; exact hv
+  | cons x l ih =>
+    obtain ⟨k', v'⟩ := x
+    intro kv h
+    simp only [dinsert] at h
+    split at h
+    · rcases List.mem_cons.mp h with rfl | hm
+      · exact hv
+      · exact hl kv (List.mem_cons_of_mem _ hm)
+    · rcases List.mem_cons.mp h with rfl | hm
+      · exact hl _ (by simp)
+      · exact ih (fun kv' h' => hl kv' (List.mem_cons_of_mem _ h')) kv hm
+
+theorem foldl_dinsert_all {V : Type} (P : V → Prop) :
+    ∀ (l acc : List (Rat × V)), (∀ kv ∈ l, P kv.2) → (∀ kv ∈ acc, P kv.2) →
+      ∀ kv ∈ l.foldl (fun d kv => dinsert kv.1 kv.2 d) acc, P kv.2 := by
+  intro l
+  induction l with
+  | nil => intro acc _ ha; exact ha
+  | cons x l ih =>
+    intro acc hl ha
+    simp only [List.foldl_cons]
+    exact ih _ (fun kv h => hl kv (List.mem_cons_of_mem _ h)) (dinsert_all P x.1 x.2 acc (hl x (by simp)) ha)
+
+theorem dictOfList_all {V : Type} (P : V → Prop) (l : List (Rat × V)) (h : ∀ kv ∈ l, P kv.2) :
+    ∀ kv ∈ dictOfList l, P kv.2 :=
+  foldl_dinsert_all P l [] h (by simp)
+
+theorem dinsert_ne_nil {V : Type} (k : Rat) (v : V) (l : List (Rat × V)) : dinsert k v l ≠ [] := by
+  cases l with
+  | nil => simp [dinsert]
+  | cons x l => obtain ⟨k', v'⟩ := x; simp only [dinsert]; split <;> simp
+
+theorem foldl_dinsert_ne_nil {V : Type} :
+    ∀ (l acc : List (Rat × V)), (l ≠ [] ∨ acc ≠ []) → l.foldl (fun d kv => dinsert kv.1 kv.2 d) acc ≠ [] := by
+  intro l
+  induction l with
+  | nil => intro acc h; rcases h with h | h; exact absurd rfl h; exact h
+  | cons x l ih => intro acc _; exact ih _ (Or.inr (dinsert_ne_nil _ _ _))
+
+/-- rows all of whose heat capacities have a wrong dimension give points none of whose values is a plain number -/
+theorem cpPoints_wrong_dim {r : Rat} (hr : r ≠ 0) :
+    ∀ (ls : List LVal) (cp : List (Rat × QV)),
+      (∀ x ∈ ls, ∃ t y d, x = .pair t (.q (.qty y d)) ∧ d ≠ Dim.molarEntropy) →
+      cpPoints ⟨1, Dim.temperature⟩ (dimValue (.qty r Dim.molarEntropy)) ls = .ok cp →
+      ∀ kv ∈ cp, ∃ y d, kv.2 = .qty y d := by
+  intro ls
+  induction ls with
+  | nil => intro cp _ h; simp [cpPoints] at h; cases h; simp
+  | cons x ls ih =>
+    intro cp hall h
+    obtain ⟨t, y, d, rfl, hd⟩ := hall x (by simp)
+    cases t with
+    | q tq =>
+      simp only [cpPoints] at h
+      obtain ⟨t', _, h⟩ := bind_eq_ok h
+      obtain ⟨v', hv', h⟩ := bind_eq_ok h
+      obtain ⟨rest, hrest, h⟩ := bind_eq_ok h
+      cases h
+      have hne : d.sub Dim.molarEntropy ≠ Dim.zero := fun e => hd ((Dim.sub_eq_zero_iff _ _).mp e)
+      simp only [dimValue, QV.div, QV.value, hr, if_false, QV.dim, build_of_ne hne] at hv'
+      cases hv'
+      intro kv hkv
+      rcases List.mem_cons.mp hkv with rfl | hm
+      · exact ⟨_, _, rfl⟩
+      · exact ih rest (fun x hx => hall x (by simp [hx])) hrest kv hm
+    | none => simp [cpPoints] at h
+    | f _ => simp [cpPoints] at h
+    | pair _ _ => simp [cpPoints] at h
+    | list _ => simp [cpPoints] at h
+
 end PGA.Yaml
